@@ -717,7 +717,8 @@ class SymName:
         return True if self._among(lambda nm: sub in nm) else False
 
     def __hash__(self):
-        raise Concretised("hash of a symbolic name (native set/dict lookup)")
+        # native set / dict use: fork over the feasible members (sound and exhaustive, costs paths)
+        return hash(self.concretise())
 
     def concretise(self):
         for i, nm in enumerate(self.names[:-1]):
@@ -733,6 +734,56 @@ class SymName:
 
     def __repr__(self):
         return "SymName(%s)" % self.idx
+
+
+class SymEnum:
+    """a member of an IntEnum given by a symbolic value; equality with members stays symbolic, str()/hash fork"""
+    __slots__ = ("idx", "enum", "members")
+    _sx_sym = True
+
+    def __init__(self, idx, enum, members):
+        self.idx = idx.z if type(idx) is SymInt else idx
+        self.enum = enum
+        self.members = list(members)
+
+    @property
+    def value(self):
+        return SymInt(self.idx)
+
+    def __eq__(self, o):
+        if type(o) is SymEnum:
+            return SymBool(self.idx == o.idx)
+        if _o_isinstance(o, self.enum):
+            return SymBool(self.idx == _o_int(o.value)) if o in self.members else False
+        return NotImplemented
+
+    def __ne__(self, o):
+        r = self.__eq__(o)
+        if r is NotImplemented:
+            return r
+        return (not r) if type(r) is bool else SymBool(z3.Not(r.z))
+
+    def concretise(self):
+        for m in self.members[:-1]:
+            if ENG.branch(self.idx == _o_int(m.value)):
+                return m
+        return self.members[-1]
+
+    def __hash__(self):
+        return hash(self.concretise())
+
+    def __str__(self):
+        return str(self.concretise())
+
+    def __format__(self, spec):
+        return format(self.concretise(), spec)
+
+    def __repr__(self):
+        return "SymEnum(%s)" % self.idx
+
+    def __getattr__(self, name):
+        # methods and class attributes of the enum, evaluated on the concretised member (forks)
+        return getattr(self.concretise(), name)
 
 
 class SymSeq:
@@ -854,6 +905,8 @@ def sx_isinstance(obj, types):
         return _o_isinstance(0.5, types)
     if t is SymName:
         return _o_isinstance("", types)
+    if t is SymEnum:
+        return _o_isinstance(obj.members[0], types)
     return False
 
 
